@@ -157,17 +157,16 @@ pub open spec fn t_mult(a: Val, b: Val) -> Res {
     }
 }
 
-/// truncating integer division (Rust `/` on i128), for y != 0
-pub open spec fn tdiv(x: int, y: int) -> int {
-    if y == 0 { 0 } else if (x >= 0 && y > 0) || (x <= 0 && y < 0) { (if x >= 0 { x } else { -x }) / (if y >= 0 { y } else { -y }) }
-    else { -((if x >= 0 { x } else { -x }) / (if y >= 0 { y } else { -y })) }
-}
-pub open spec fn trem(x: int, y: int) -> int { x - tdiv(x, y) * y }
+/// Int `/` and `%` are pinned to std's `i128::checked_div` / `checked_rem` (truncating division; `None` for a
+/// zero divisor and for i128::MIN / -1) exactly as vstd specifies them; the closed form for positive divisors
+/// is restated by the clauses div.int_pos / rem.int_pos.
+pub open spec fn i128_checked_div(x: i128, y: i128) -> Option<i128> { choose|o: Option<i128>| call_ensures(i128::checked_div, (x, y), o) }
+pub open spec fn i128_checked_rem(x: i128, y: i128) -> Option<i128> { choose|o: Option<i128>| call_ensures(i128::checked_rem, (x, y), o) }
 
 pub open spec fn t_div(a: Val, b: Val) -> Res {
     match (a, b) {
         // [pinned] i128::MIN / -1 is reported through the same error as division by zero
-        (Val::Int(x), Val::Int(y)) => if y == 0 || (x == i128::MIN && y == -1) { Res::Err(ErrK::DivisionByZero) } else { Res::Ok(Val::Int(tdiv(x, y))) },
+        (Val::Int(x), Val::Int(y)) => ok_i128(i128_checked_div(x as i128, y as i128), ErrK::DivisionByZero),
         (Val::Float(x), Val::Float(y)) => Res::Ok(Val::Float(x.div_spec(y))),
         (Val::Dec(x), Val::Dec(y)) => ok_dec(dec_checked_div(x, y), ErrK::DivisionByZero),
         (Val::None, _) => Res::Ok(Val::None),
@@ -178,7 +177,7 @@ pub open spec fn t_div(a: Val, b: Val) -> Res {
 
 pub open spec fn t_rem(a: Val, b: Val) -> Res {
     match (a, b) {
-        (Val::Int(x), Val::Int(y)) => if y == 0 || (x == i128::MIN && y == -1) { Res::Err(ErrK::DivisionByZero) } else { Res::Ok(Val::Int(trem(x, y))) },
+        (Val::Int(x), Val::Int(y)) => ok_i128(i128_checked_rem(x as i128, y as i128), ErrK::DivisionByZero),
         (Val::Float(x), Val::Float(y)) => Res::Ok(Val::Float(x.rem_spec(y))),
         (Val::Dec(x), Val::Dec(y)) => ok_dec(dec_checked_rem(x, y), ErrK::DivisionByZero),
         (Val::None, _) => Res::Ok(Val::None),
